@@ -11,7 +11,7 @@ use std::cmp::Ordering;
 use rlib_num_traits::ZeroOne;
 use rlib_show::{Show, ShowSettings};
 
-#[derive(Clone, Copy, PartialEq, Eq)]
+#[derive(Clone, Copy)]
 #[repr(align(16))]
 #[allow(non_camel_case_types)]
 pub struct f80([u8; 10]);
@@ -93,6 +93,12 @@ define_f80_assign_op!(DivAssign, div_assign, div);
 
 define_f80_unary_op!(Neg, neg, "fchs");
 
+impl PartialEq for f80 {
+    fn eq(&self, rhs: &f80) -> bool {
+        self.le(rhs) && rhs.le(self)
+    }
+}
+
 impl PartialOrd<f80> for f80 {
     fn lt(&self, rhs: &f80) -> bool {
         let mut res = std::mem::MaybeUninit::<u32>::uninit();
@@ -119,11 +125,27 @@ impl PartialOrd<f80> for f80 {
     }
 
     fn le(&self, rhs: &f80) -> bool {
-        !self.gt(rhs)
+        let mut res = std::mem::MaybeUninit::<u32>::uninit();
+        unsafe {
+            let e: u32;
+            core::arch::asm! {
+                "fld     TBYTE PTR [{0}]",
+                "fld     TBYTE PTR [{1}]",
+                "fcomip  st, st(1)",
+                "fstp    st(0)",
+                "setae   al",
+                in(reg) self.0.as_ptr(),
+                in(reg) rhs.0.as_ptr(),
+                out("eax") e,
+                options(nostack)
+            }
+            *res.as_mut_ptr() = e;
+            (res.assume_init() & 1) > 0
+        }
     }
 
     fn ge(&self, rhs: &f80) -> bool {
-        !self.lt(rhs)
+        rhs.le(self)
     }
 
     fn partial_cmp(&self, rhs: &f80) -> Option<Ordering> {
